@@ -12,6 +12,7 @@ import (
 	"github.com/ngicks/gokugen/cron"
 	"github.com/ngicks/gokugen/def"
 	"github.com/ngicks/gokugen/mutator"
+	"github.com/ngicks/gokugen/scheduler"
 	"github.com/ngicks/und/option"
 	robfig "github.com/robfig/cron/v3"
 
@@ -68,10 +69,14 @@ type cronEnt struct {
 }
 
 type cronWorld struct {
-	clk     *vclock.Clock
-	ents    []cronEnt
-	store   *cron.CronStore
-	started bool
+	scribble  bool
+	scribbled int
+	lastSched []def.Task // what the last csLine got from Schedule()
+	handed    []def.Task // tasks returned by Pop / Peek since the last scribble
+	clk       *vclock.Clock
+	ents      []cronEnt
+	store     *cron.CronStore
+	started   bool
 }
 
 func (w *cronWorld) find(name string) *cron.Entry {
@@ -95,6 +100,7 @@ func (w *cronWorld) csLine() string {
 	if w.store != nil {
 		ns, nok = w.store.NextScheduled()
 		tasks = w.store.Schedule()
+		w.lastSched = tasks
 	}
 	fmt.Fprintf(&b, "cs -> %s %s %s %s %s %d", proto.Time(w.clk.Now()), a, b01(pending), proto.Time(ns), b01(nok), len(w.ents))
 	for _, e := range w.ents {
@@ -122,9 +128,11 @@ func namesTok(s string) []string {
 
 // cronExec. Ops: `ent <name> <start> <exprEnc> <param6>`, `newstore <names,>`, pop, peek, `edit <add|-> <rem|->`,
 // start, stop, `adv <t>`, consume.
+var cronScribble bool
+
 func cronExec(h sim.History) []string {
 	out := []string{"new cron"}
-	w := &cronWorld{clk: vclock.New(T0)}
+	w := &cronWorld{clk: vclock.New(T0), scribble: cronScribble}
 	ctx := context.Background()
 	prevClk := mutator.VerifSetClock(w.clk)
 	defer mutator.VerifSetClock(prevClk)
@@ -194,12 +202,14 @@ func cronExec(h sim.History) []string {
 				resp = proto.Res(err)
 				if err == nil {
 					resp = "ok " + proto.Task(t)
+					w.handed = append(w.handed, t)
 				}
 			case "peek":
 				t, err := w.store.Peek(ctx)
 				resp = proto.Res(err)
 				if err == nil {
 					resp = "ok " + proto.Task(t)
+					w.handed = append(w.handed, t)
 				}
 			case "edit":
 				add, rem := namesTok(tok[1]), namesTok(tok[2])
@@ -243,6 +253,37 @@ func cronExec(h sim.History) []string {
 		out = append(out, line+" -> "+resp)
 		if w.store != nil {
 			out = append(out, w.csLine())
+			if w.scribble {
+				// scribble over everything the store handed out, then look again (C19)
+				before := proto.Tasks(w.lastSched)
+				w.scribbled += scribbleTasks(w.lastSched)
+				w.scribbled += scribbleTasks(w.handed)
+				w.handed = nil
+				for _, e := range w.ents {
+					w.scribbled += scribbleParam(e.entry.Param())
+				}
+				if after := proto.Tasks(w.store.Schedule()); after != before {
+					out = append(out, "mismatch C19 scribbling over tasks returned by the cron store changed its pending schedule: "+proto.Str(after))
+				}
+			}
+		}
+	}
+	if w.scribble && w.store != nil {
+		// the scheduler-facing wrapper: GetNext / GetById of volatileTaskRepo
+		v := scheduler.NewVolatileTaskRepo(w.store)
+		if t, err := v.GetNext(ctx); err == nil {
+			want := proto.Task(t.Clone())
+			w.scribbled += scribbleTasks([]def.Task{t})
+			a, err1 := v.GetById(ctx, t.Id)
+			if err1 == nil {
+				if got := proto.Task(a); got != want {
+					out = append(out, "mismatch C19 volatileTaskRepo.GetById returns what the client scribbled into the task GetNext gave it")
+				}
+				w.scribbled += scribbleTasks([]def.Task{a})
+				if b, err2 := v.GetById(ctx, t.Id); err2 == nil && proto.Task(b) != want {
+					out = append(out, "mismatch C19 volatileTaskRepo.GetById shares its recorded task's maps with the caller: a second GetById returns the caller's changes")
+				}
+			}
 		}
 	}
 	return append(out, "end")
@@ -418,7 +459,9 @@ func cmdCron(args []string) {
 	fs := flag.NewFlagSet("cron", flag.ExitOnError)
 	c.register(fs)
 	badMeta := fs.Bool("badmeta", true, "offer entries with undecodable mutator metadata")
+	scrib := fs.Bool("scribble", false, "scribble over every map the store hands out (C19)")
 	fs.Parse(args)
+	cronScribble = *scrib
 	os.MkdirAll(c.scratch, 0o755)
 	rep := &Report{Family: "cron", Seed: c.seed, Dist: map[string]int{}, Config: map[string]string{"len": strconv.Itoa(c.length)}}
 	var hists []sim.History
